@@ -3,6 +3,7 @@ package hx
 import (
 	"fmt"
 	"math"
+	"sort"
 	"strconv"
 	"strings"
 	"time"
@@ -207,8 +208,30 @@ func SSetMany(items ...KV) *Op {
 		toks[i] = "( " + SS(it.K) + " " + it.V.Tok + " )"
 		m[it.K] = it.V.Go
 	}
-	return &Op{Name: "SSetMany", Tok: "SSetMany " + L(toks...), Write: true,
-		Run: func(r R, x *Exec, op *Op) Res { return errOnly(r.Str().SetMany(m)) }}
+	return &Op{Name: "SSetMany", Tok: "SSetMany " + L(toks...), Write: true, MultiMap: len(items) > 1,
+		Run: func(r R, x *Exec, op *Op) Res { return errOnly(r.Str().SetMany(m)) },
+		Post: func(x *Exec, op *Op) {
+			// order the items by the id of their key row
+			ord := map[string]int64{}
+			for _, it := range items {
+				var id int64
+				if x.Raw.QueryRow(`select id from rkey where key = ?`, it.K).Scan(&id) == nil {
+					ord[it.K] = id
+				} else {
+					ord[it.K] = 1 << 62
+				}
+			}
+			idx := make([]int, len(items))
+			for i := range idx {
+				idx[i] = i
+			}
+			sort.SliceStable(idx, func(a, b int) bool { return ord[items[idx[a]].K] < ord[items[idx[b]].K] })
+			t := make([]string, len(items))
+			for i, j := range idx {
+				t[i] = toks[j]
+			}
+			op.Tok = "SSetMany " + L(t...)
+		}}
 }
 
 // SetCall is one builder call on rstring.SetCmd.
